@@ -5,7 +5,7 @@ import math
 import numpy as np
 
 from .devices import site_has
-from .props.common import V, chain_accept
+from .props.common import V, chain_accept, same_point
 from .util import EPS
 
 
@@ -35,7 +35,8 @@ def check_C12(ex, sub=None):
     ctx = {}
     if r is None:
         # deliberate step-size error is raised after the step, before the callback
-        if ex.outcome == "deliberate:Inverse step size" and len(K) != len(T) - 1:
+        # whether the last step is still announced before the deliberate error is raised is the code's business
+        if ex.outcome == "deliberate:Inverse step size" and len(K) not in (len(T) - 1, len(T)):
             out.append(V(P, "callback-count", "%d callbacks for %d trials in a run ending with the step-size error" % (len(K), len(T)), sub, ctx))
         return out
     if not (len(K) == len(T) == r.iterations):
@@ -43,7 +44,7 @@ def check_C12(ex, sub=None):
         return out
     rt = ex.ref_transform()
     for t, (tr, cb) in enumerate(zip(T, K)):
-        if cb[0] is not tr.inp or cb[1] is not tr.out:
+        if not same_point(cb[0], tr.inp) or not same_point(cb[1], tr.out):
             out.append(V(P, "callback-args", "callback %d was not given the iterates of trial %d" % (t, t), sub, {"t": t}))
             break
         if cb[2] != tr.accepted:
@@ -56,11 +57,11 @@ def check_C12(ex, sub=None):
     for t in range(len(T) - 1):
         nxt = T[t + 1].inp
         if fin[t]:
-            if nxt is not T[t].out:
+            if not same_point(nxt, T[t].out):
                 out.append(V(P, "chain", "step %d was accepted but step %d does not start from its result" % (t, t + 1), sub, {"t": t}))
                 break
         else:
-            if nxt is not T[t].inp:
+            if not same_point(nxt, T[t].inp):
                 out.append(V(P, "chain", "step %d was not accepted but step %d starts from a different point" % (t, t + 1), sub, {"t": t}))
                 break
     nacc = sum(1 for f in fin if f)
@@ -111,6 +112,22 @@ def check_C12(ex, sub=None):
                 if not abs(inc - dt) <= 64 * EPS * S:
                     out.append(V(P, "model-times", "model time advanced by %r at accepted step %d, the step size used was %r" % (float(inc), i + 1, dt), sub, ctx))
                     break
+            else:
+                # "the step size used": under exact control an accepted point solves the implicit-Euler
+                # equation of the flow for the step size that was *really* used; the recorded model time
+                # increment must be that step size (independent of what was passed down the call chain)
+                if ex.params.step_control_type.name == "Exact" and len(dts) >= 1:
+                    acc_tr = [tr for t, tr in enumerate(T) if fin[t]]
+                    for i, tr in enumerate(acc_tr):
+                        inc = float(times[i + 1] - times[i])
+                        if not (inc > 0.0 and math.isfinite(inc)):
+                            continue
+                        F = rt.flow_residual(tr.out.x, tr.out.y, tr.inp.x, tr.inp.y, inc, tr.rho)
+                        nrm = float(np.linalg.norm(F))
+                        allow = ex.params.newton_tol * (1 + 1e-9) + 1e-8 * math.sqrt(rt.N) + flow_rounding(rt, tr.out.x, tr.out.y, tr.inp.x, tr.inp.y, inc, tr.rho) + 64 * EPS * S
+                        if not nrm <= allow:
+                            out.append(V(P, "model-times-flow", "accepted step %d under exact control: the recorded model-time increment %r is not the step size the point was computed with (implicit-Euler residual %r > %r)" % (i + 1, inc, nrm, allow), sub, ctx))
+                            break
     elif r.path is not None:
         out.append(V(P, "path-shape", "a path was returned although collect_path is off", sub, ctx))
     return out
@@ -144,7 +161,7 @@ def check_C15(ex, sub=None):
             if nx.dt != 1.0 / tr.lamb:
                 out.append(V(P, "lambda-chain", "trial %d uses dt=%r although trial %d returned lambda=%r" % (t + 1, nx.dt, t, tr.lamb), sub, ctx))
                 break
-            if not tr.accepted and nx.inp is not tr.inp:
+            if not tr.accepted and not same_point(nx.inp, tr.inp):
                 out.append(V(P, "iterate-moved", "trial %d was rejected/failed but trial %d starts from another point" % (t, t + 1), sub, ctx))
                 break
         if not tr.accepted:
@@ -185,6 +202,9 @@ def check_C16(ex, sub=None):
     fin = _final_flags(ex)
     ymax = 0.0
     have_y = False
+    # "its initial value" = the penalty the first trial step used (what the policy starts from is
+    # the code's business; the property constrains how it evolves)
+    rho0 = T[0].rho if T else prm.rho
     for t, tr in enumerate(T):
         ctx = {"t": t, "policy": pol}
         rho = tr.rho
@@ -205,17 +225,16 @@ def check_C16(ex, sub=None):
             if pol == "DualNorm" and rho > 10.0 * prev * (1 + 4 * EPS):
                 out.append(V(P, "dualnorm-growth", "penalty grew %r -> %r (more than tenfold) at trial %d" % (prev, rho, t), sub, ctx))
                 break
-        if pol == "Constant" and rho != prm.rho:
-            out.append(V(P, "constant", "constant policy but trial %d used %r instead of %r" % (t, rho, prm.rho), sub, ctx))
+        if pol == "Constant" and rho != rho0:
+            out.append(V(P, "constant", "constant policy but trial %d used %r, the first trial used %r" % (t, rho, rho0), sub, ctx))
             break
         if pol == "DualNorm":
-            bound = max(prm.rho, ymax) if have_y else prm.rho
+            bound = max(rho0, ymax) if have_y else rho0
             if rho > bound * (1 + 4 * EPS):
-                out.append(V(P, "dualnorm-bound", "penalty %r at trial %d exceeds max(initial %r, largest accepted multiplier norm %r)" % (rho, t, prm.rho, ymax), sub, ctx))
+                out.append(V(P, "dualnorm-bound", "penalty %r at trial %d exceeds max(initial %r, largest accepted multiplier norm %r)" % (rho, t, rho0, ymax), sub, ctx))
                 break
-        if tr.solver_rho_cb is not None and tr.solver_rho_cb != rho:
-            out.append(V(P, "solver-rho", "solver.rho seen by callback %d is %r, the step used %r" % (t, tr.solver_rho_cb, rho), sub, ctx))
-            break
+        # (solver.rho as seen from a callback is recorded in the trial log but not judged: the property
+        # is about the penalty the trial steps *use*; when the attribute is updated is the code's business)
         if tr.exc is None and fin[t] and tr.out.y.size:
             ymax = max(ymax, float(np.abs(tr.out.y).max()))
             have_y = True
@@ -244,6 +263,21 @@ def check_C18_live(ex, sub=None):
                     out.append(V(P, "live-dominated", "after trial %d the live filter holds (%r,%r) dominated by (%r,%r)" % (t, c, d, a, b), sub, ctx))
                     return out
         vetoed = not tr.penalty[1]
+        if tr.filter_before is not None:
+            # one step of the reference set model from the state the live filter was in
+            b_ents, b_rho, pair = tr.filter_before
+            if all(math.isfinite(v) for v in pair) and all(math.isfinite(a) and math.isfinite(b) for (a, b) in b_ents):
+                refuse = any(a <= pair[0] and b <= pair[1] for (a, b) in b_ents)
+                if refuse != vetoed:
+                    out.append(V(P, "live-verdict", "trial %d: the pair %r was %s although a stored entry at least as good in both coordinates %s" % (t, pair, "refused" if vetoed else "accepted", "exists" if refuse else "does not exist"), sub, ctx))
+                    return out
+                exp = list(b_ents) if refuse else [e for e in b_ents if not (pair[0] <= e[0] and pair[1] <= e[1])] + [pair]
+                if sorted((float(a), float(b)) for (a, b) in ents) != sorted((float(a), float(b)) for (a, b) in exp):
+                    out.append(V(P, "live-entries", "trial %d: after the pair %r the live filter holds %r, the reference model %r" % (t, pair, sorted(ents)[:5], sorted(exp)[:5]), sub, ctx))
+                    return out
+                if frho != (b_rho * 10.0 if refuse else b_rho):
+                    out.append(V(P, "live-rho", "trial %d: the filter's penalty went %r -> %r on %s" % (t, b_rho, frho, "refusal" if refuse else "acceptance"), sub, ctx))
+                    return out
         if prev_rho is not None:
             if vetoed and frho != prev_rho * 10.0:
                 out.append(V(P, "live-rho", "veto at trial %d but the filter's penalty went %r -> %r" % (t, prev_rho, frho), sub, ctx))
